@@ -15,17 +15,23 @@ PROFILES = {
                    set_tracked=3, raise_=1, try_=1, cancel=1),
     'locks': dict(log=4, await_time=5, with_lock=9, lock_avail=3, scope=1, do=4, cancel=3, until_time=2,
                   raise_=1, try_=1),
-    'queues': dict(log=3, await_time=4, put=8, get=8, close_q=1, scope=1, do=4, cancel=3, until_time=2,
+    'queues': dict(log=3, await_time=4, put=8, get=8, close_q=1, for_queue=3, scope=1, do=4, cancel=3, until_time=2,
                    try_stream=3),
+    'tickers': dict(log=4, await_time=4, interval=6, delay_iter=5, until_time=3, scope=1, do=3, set_flag=1, await_cond=1),
+    'channels': dict(log=3, await_time=4, chan_put=8, chan_get=4, for_chan=5, chan_close=1, scope=1, do=4, cancel=3,
+                     until_time=2, try_chan=2),
+    'flows': dict(log=4, await_time=4, collect=5, first=7, scope=1, do=2, until_time=2, try_=2, cancel=1),
     'mixed': dict(log=5, await_time=6, await_cond=4, set_flag=3, set_tracked=3, scope=2, until_time=2,
                   until_cond=2, do=5, cancel=2, await_task=2, raise_=1, try_=2, with_lock=3, lock_avail=1,
-                  put=3, get=3, close_q=1, status=1, try_stream=1),
+                  put=3, get=3, close_q=1, status=1, try_stream=1, for_queue=1, interval=1, delay_iter=1, chan_put=2,
+                  chan_get=1, for_chan=1, collect=1, first=1),
 }
 
 
 class Gen:
     def __init__(self, rng, profile, start=0, nflags=2, ntracked=2, nlocks=2, nqueues=1, maxdepth=3,
-                 size=14, allow_inf=False):
+                 size=14, allow_inf=False, nchans=1):
+        self.nchans = nchans
         self.rng = rng
         self.w = PROFILES[profile]
         self.profile = profile
@@ -108,7 +114,12 @@ class Gen:
     def pick(self, ctx):
         items = [(k, v) for k, v in self.w.items() if v > 0]
         if ctx['depth'] >= self.maxdepth:
-            items = [(k, v) for k, v in items if k not in ('scope', 'until_time', 'until_cond', 'try_', 'with_lock', 'try_stream')]
+            items = [(k, v) for k, v in items if k not in ('scope', 'until_time', 'until_cond', 'try_', 'with_lock', 'try_stream',
+                                                           'for_queue', 'for_chan', 'interval', 'delay_iter', 'collect', 'first', 'try_chan')]
+        if ctx.get('inloop'):
+            # loop bodies re-execute: no statement that binds a scope or task name
+            items = [(k, v) for k, v in items if k not in ('scope', 'until_time', 'until_cond', 'do', 'collect', 'first',
+                                                           'for_queue', 'for_chan', 'interval', 'delay_iter')]
         if not ctx['scopes'] and not self.all_scopes:
             items = [(k, v) for k, v in items if k != 'do']
         if not self.tasks:
@@ -218,6 +229,50 @@ class Gen:
             return [['get', r.randrange(self.nqueues)]]
         if kind == 'close_q':
             return [['close_q', r.randrange(self.nqueues)]]
+        if kind in ('for_queue', 'for_chan'):
+            body = self.block(r.choice([1, 1, 2]), self.sub(ctx, inloop=True))
+            n = r.choice([0, 0, 1, 2, 3])
+            x = r.randrange(self.nqueues if kind == 'for_queue' else self.nchans)
+            return [[kind, x, n, body], ['log', self.k()]]
+        if kind in ('interval', 'delay_iter'):
+            body = self.block(r.choice([1, 1, 2]), self.sub(ctx, inloop=True))
+            return [[kind, r.choice([0, 1, 1, 2, 2, 3]), r.choice([1, 2, 2, 3, 4]), body], ['log', self.k()]]
+        if kind == 'chan_put':
+            return [['chan_put', r.randrange(self.nchans), self.k()]]
+        if kind == 'chan_get':
+            return [['chan_get', r.randrange(self.nchans)]]
+        if kind == 'chan_close':
+            return [['chan_close', r.randrange(self.nchans)]]
+        if kind == 'try_chan':
+            c = r.randrange(self.nchans)
+            body = [['chan_get', c]] if r.random() < 0.6 else [['chan_put', c, self.k()]]
+            return [['try', body, [[['stream_closed'], [['log', self.k()]]]], []]]
+        if kind in ('collect', 'first'):
+            self.nscope += 1
+            name = 500 + self.nscope
+            acts = []
+            for _ in range(r.choice([1, 2, 2, 3, 3, 4])):
+                self.ntask += 1
+                b = []
+                c = r.random()
+                if c < 0.75:
+                    b.append(['await', ['delay', r.choice([0, 1, 1, 2, 2, 3, 4])]])
+                if r.random() < 0.5:
+                    b.append(['log', self.k()])
+                if r.random() < (0.12 if kind == 'first' else 0.2):
+                    b.append(['raise', r.choice([0, 1, 2])])
+                acts.append([200 + self.ntask, b])
+            if kind == 'collect':
+                st = ['collect', name, acts]
+                if r.random() < 0.5:
+                    return [['try', [st], [[['concurrent'], [['log', self.k()]]]], []], ['log', self.k()]]
+                return [st, ['log', self.k()]]
+            k = r.choice([None, 1, 1, 2, 2, 3, len(acts), len(acts) + 1, 0])
+            body = self.block(r.choice([0, 1, 1, 2]), self.sub(ctx, inloop=True))
+            st = ['first', name, k, r.choice([0, 0, 0, 1, 2]), acts, body]
+            if r.random() < 0.4:
+                return [['try', [st], [[['exception'], [['log', self.k()]]], [['concurrent'], [['log', self.k()]]]], []], ['log', self.k()]]
+            return [st, ['log', self.k()]]
         raise ValueError(kind)
 
     def scenario(self, nroots=None, till=None):
@@ -229,7 +284,7 @@ class Gen:
             roots.append(self.block(max(1, self.size // nroots + r.choice([-1, 0, 1])), ctx))
         return dict(start=self.start, till=till, roots=roots, nflags=self.nflags,
                     tracked=[r.choice([0, 0, 1]) for _ in range(self.ntracked)], nlocks=self.nlocks,
-                    nqueues=self.nqueues)
+                    nqueues=self.nqueues, nchans=self.nchans)
 
 
 def generate(rng, profile, **kw):
